@@ -292,11 +292,7 @@ Theorem C14_network_coverage :
   let M := get_ejk g (count_edge_types cnt (edges g)) i t in
   (forall a, In a (xkeys_i g i) -> exists b, In b (xkeys_i g i) /\ dmem M (a ++ b) = true) /\
   (forall k a, In k (dkeys M) -> firstn T k = a -> In (skipn T k) (xkeys_i g i)).
-Proof.
-  intros g T HV i t c HC cnt M. split.
-  - exact (xkey_has_partner g T HV i t c HC cnt).
-  - exact (xkeys_cover g T HV i t c HC cnt).
-Qed.
+Proof. exact network_coverage. Qed.
 Print Assumptions C14_network_coverage.
 
 (* consequently the verified checker accepts the model's own output for every clean network *)
@@ -309,11 +305,7 @@ Theorem C14_model_passes_network_checker :
                       clean_for g i name (Z.of_nat c) /\ col_sum g i <> 0%Z) ->
     exists rows fwd, net_rows g names = Ok rows /\ net_forward g = Ok fwd /\
                      check_networkb 0 g names cs rows fwd = true.
-Proof.
-  intros g names cs H1 H2 H3 H4 H5 H6.
-  destruct (network_full g names cs H1 H2 H3 H4 H5 H6) as [rows [fwd [A [B C]]]].
-  exists rows, fwd. split; [exact A|]. split; [exact B|]. now apply check_networkb_iff.
-Qed.
+Proof. exact network_full_passes_checker. Qed.
 Print Assumptions C14_model_passes_network_checker.
 
 (* non-vacuity: the triangle + single-edge network meets every hypothesis of C14_network_full *)
